@@ -52,6 +52,7 @@ def run(ctx):
         ctx.sample({"input": c["inp"], "shapes": [c["hs"], c["as"], c["a6s"], c["ts"]], "spec_queries": c["queries"], "spec_result": c["result"]})
 
     doh_stage(ctx)
+    big_compressed(ctx)
 
     # direction B: seeded random DNS universes (chains and loops of any length, CNAME chains, error names, poisoned answers);
     # TLC runs Resolve.tla on each recorded universe and the observed result / queries must be the specification's
@@ -91,3 +92,19 @@ def doh_stage(ctx):
     for x in res:
         if not x.get("summary"):
             ctx.violation("doh:" + x["key"], "DoH exchange %s: %s" % (x["key"], x["diff"][:400]), x)
+
+
+def big_compressed(ctx):
+    """records of another owner named by compression pointers beyond offset 1023 in a > 1 KiB response"""
+    f = ctx.path("bigc.ndjson")
+    rc, out = ctx.go_test("^TestResolveBigCompressed$", env={"VH_OUT": f}, timeout=600)
+    res = vlib.read_ndjson(f)
+    summ = [x for x in res if x.get("summary")]
+    if not summ:
+        raise vlib.Inconclusive("big-compressed driver did not finish:\n" + out[-1500:])
+    if summ[0].get("env"):
+        raise vlib.Inconclusive("environment failure in the big-compressed driver")
+    ctx.evaluations += summ[0]["cases"]
+    for x in res:
+        if not x.get("summary"):
+            ctx.violation("bigc:" + x["key"], "Resolve on a large compressed response: " + x["diff"], x)
